@@ -16,6 +16,7 @@ from __future__ import annotations
 
 import itertools
 import re
+import zlib
 
 from .. import common, drive, gen, refmodel, render
 from ..model import Form, Row
@@ -234,6 +235,34 @@ def judge(ctx, sheets, sig, klass, args=None, langs_in_output=None, form=None, f
                 cls = "wrong-subject"
             ctx.viol(f"{kind}:{cls}", f"[{klass}] warning kind {kind}: trigger says {exp[kind]}, warnings say {got[kind]}", wit)
     ctx.ctr("unlisted_warnings", len(got["other"]))
+    if fmt == "dict" and zlib.crc32(sig.encode()) % 4 == 0:
+        # the builder route writing a file (workbook -> JSON form -> survey.print_xform_to_file(path, warnings=w)): same advisories as convert()
+        import copy
+        import os
+        import tempfile
+        from pyxform.builder import create_survey_element_from_dict
+        from pyxform.xls2json import workbook_to_json
+        from pyxform.xls2json_backends import get_xlsform
+        w = []
+        d = tempfile.mkdtemp(prefix="verif_c20_")
+        try:
+            kw = {k: v for k, v in (args or {}).items() if k in ("form_name", "default_language", "fallback_form_name")}
+            js = workbook_to_json(get_xlsform(render.render(sheets, "dict")), warnings=w, **kw)
+            sv = create_survey_element_from_dict(copy.deepcopy(js))
+            sv.print_xform_to_file(os.path.join(d, "out.xml"), validate=False, pretty_print=False, warnings=w)
+            ctx.ctr("file_route_forms_judged")
+            got2 = recognise(w)
+            for kind in RX:
+                a_, b_ = sorted(map(repr, got[kind])), sorted(map(repr, got2[kind]))
+                if a_ != b_:
+                    ctx.viol(f"{kind}:{'not-emitted' if not b_ else 'differs'}:print_xform_to_file-route", f"[{klass}] warning kind {kind}: convert() says {got[kind]}, the builder route writing the "
+                             f"file itself (print_xform_to_file) says {got2[kind]}", wit)
+        except Exception as e:  # noqa: BLE001
+            ctx.viol("file-route:raised", f"[{klass}] convert() accepted the workbook but workbook_to_json + print_xform_to_file raised {type(e).__name__}: {str(e)[:200]}", wit)
+        finally:
+            for n_ in os.listdir(d):
+                os.unlink(os.path.join(d, n_))
+            os.rmdir(d)
     return o
 
 
@@ -374,7 +403,15 @@ def run_shard(ctx):
         if not any(c == "label" for c, _ in cc):
             cc = cc + (("label", None),)
         form = header_form(sc, cc)
-        o = judge(ctx, form.to_sheets(), f"hdr|{si}|{(si * 31 + n) % len(ccombos)}", "headers")
+        xcol = None
+        if n % 5 == 2:
+            # a plain data column on the choices sheet that is called like a translatable SURVEY column: still plain data (copied into the
+            # choices instance), never part of the translation bookkeeping
+            xcol = ("hint", "guidance_hint", "constraint_message", "required_message", "hint", "guidance_hint")[(n // 5) % 6]
+            for c_ in form.choices["l1"]:
+                c_[xcol] = "data"
+            ctx.ctr("choices_plain_column_named_like_survey_translatable")
+        o = judge(ctx, form.to_sheets(), f"hdr|{si}|{(si * 31 + n) % len(ccombos)}|{xcol}", "headers")
         if n < 2 and o is not None:
             ctx.sample({"survey_headers": [f"{c}::{v}" if v else c for c, v in sc], "choices_headers": [f"{c}::{v}" if v else c for c, v in cc],
                         "warnings": o.warnings[:4], "observed": "missing-translation warning iff trigger, subjects equal"})
